@@ -581,6 +581,7 @@ func runProperty(rc *runConfig) int {
 	nViol, nKnown := 0, 0
 	var samples []interface{}
 	knownHit := []string{}
+	knownPrinted := map[string]bool{}
 	for _, e := range dvs {
 		status := e.confirmed
 		if rc.noReplay {
@@ -590,8 +591,12 @@ func runProperty(rc *runConfig) int {
 		switch {
 		case status == "confirmed" && e.known != nil:
 			nKnown++
-			fmt.Printf("KNOWN-FINDING: property=%s %s/%s %s: %s\n", rc.prop, baseName(e.v.Harness), e.v.Assertion, e.known.Site, e.known.What)
-			knownHit = append(knownHit, baseName(e.v.Harness)+"/"+e.v.Assertion+" "+e.known.What)
+			line := fmt.Sprintf("KNOWN-FINDING: property=%s %s/%s %s: %s", rc.prop, baseName(e.v.Harness), e.v.Assertion, e.known.Site, e.known.What)
+			if !knownPrinted[line] {
+				knownPrinted[line] = true
+				fmt.Println(line)
+				knownHit = append(knownHit, baseName(e.v.Harness)+"/"+e.v.Assertion+" "+e.known.What)
+			}
 		case status == "confirmed":
 			nViol++
 			exit = 1
